@@ -29,6 +29,16 @@ TDestroy  == IsEvent("destroy")  /\ DestroyOK(E.r)      /\ DestroyEff(E.r)
 TEnd      == IsEvent("end")      /\ EndOK(E.pending)    /\ EndEff
 TProbe    == IsEvent("probe")    /\ ProbeOK             /\ ProbeEff
 TInfo     == IsEvent("info")     /\ UNCHANGED svars
+\* time (primitives whose acquire carries a deadline; schedules of SemGenTimed): the driver moved the
+\* clock the library reads / a waiter that was woken by a release read it (clk = clock units, held =
+\* the engine keeps it there until a third party has taken the permit).  Neither changes what the cap
+\* owes: whatever the woken waiter computes, it ends as an admission (judged by AcqOkOK) or as a
+\* refusal that holds nothing (judged by EndOK / ProbeOK and every later answer).  The guard is a
+\* check of the binding: only a pending timed acquire can be the reader.
+TTick     == IsEvent("tick")     /\ E.d \in Nat /\ UNCHANGED svars
+TWake     == IsEvent("wake")     /\ E.clk \in Nat /\ E.held \in BOOLEAN
+                                 /\ \E p \in DOMAIN acq : acq[p].mode = "timeout"
+                                 /\ UNCHANGED svars
 
 \* known finding (genuine gap, not repaired): Pool.Put has no way to report an over-return; a second
 \* Put of the same resource (or of a foreign object) is accepted silently.  Only tried by the runner
@@ -43,6 +53,7 @@ KF_PoolDoublePut ==
 TInit == SInit /\ l = 1
 TNext == \/ TReset \/ TAcqStart \/ TAcqOk \/ TAcqFail \/ TEnter \/ TExit \/ TPanicExit
          \/ TRelStart \/ TRelOk \/ TOverReturn \/ TCreate \/ TDestroy \/ TEnd \/ TProbe \/ TInfo
+         \/ TTick \/ TWake
          \/ KF_PoolDoublePut
 TSpec == TInit /\ [][TNext]_tvars
 
